@@ -23,6 +23,7 @@ func C06(c *Ctx) {
 	r.Rule("C06-b", "memo discipline in parseExprWrap and parseRuleMemoize: on every path with a store, the key is the savepoint current when the evaluation of the same node started, the tuple holds that evaluation's value and flag and the position current right after it; every evaluation on the memoize path is preceded by a lookup miss and followed by a store; a hit restores tuple.end and returns tuple.v, tuple.b; failing tuples end at their key")
 	r.Rule("C06-b2", "getMemoized reads p.memo[p.pt.offset][node]; setMemoized writes p.memo[<savepoint>.offset][node] = tuple; p.memo has no other writer; lookup and store in parseExprWrap are guarded by the same expression")
 	r.Rule("C06-c", "ChoiceAltCnt / choiceNoMatch / Stats are touched only by incChoiceAltCnt, the Statistics option and newParser; incChoiceAltCnt returns nothing; ExprCnt is read only in `p.ExprCnt > p.maxExprCnt` and incremented only in parseExpr")
+	r.Rule("C06-d", "with LeftRecursion: under Memoize a left-recursive rule is never routed through the rule memo (a memoised first failure would be replayed on every growth step), and expression memoisation is off inside such rules")
 	r.Rule("C06-w", "configuration flags are assigned only by their option function (and newParser defaults): memoize, debug, recover, allowInvalidUTF8, maxExprCnt, entrypoint")
 
 	abs := c.allAbs()
@@ -45,6 +46,7 @@ func C06(c *Ctx) {
 		c06a(c, a.V)
 		c06b(c, a)
 		c06c(c, a.V)
+		c06d(c, a)
 	}
 	r.Min("non-optimized variants", 8, n)
 }
@@ -470,5 +472,44 @@ func c06w(c *Ctx, v *variants.Variant) {
 		r.Bad("C06-w", "T.config-flags:writers", v.Name, "builder/static_code.go", bad[0])
 	} else {
 		r.Ok("C06-w", "T.config-flags:writers", v.Name, "builder/static_code.go", "each flag assigned only by its option")
+	}
+}
+
+// c06d: Memoize must not change how left-recursive rules are evaluated.
+func c06d(c *Ctx, a *absVariant) {
+	r := c.R
+	v := a.V
+	if !v.Params.LeftRecursion {
+		return
+	}
+	res := a.Res["parseRuleWrap"]
+	if res == nil {
+		return
+	}
+	var bad []string
+	for _, e := range res.Exits {
+		for _, ev := range eventsOf(e, "eval") {
+			if ev.Args[0] != "parseRuleMemoize" {
+				continue
+			}
+			okFact := false
+			for f, val := range ev.Facts {
+				if val && strings.Contains(strings.ReplaceAll(f, " ", ""), "!rule.leftRecursive") {
+					okFact = true
+				}
+				if !val && strings.ReplaceAll(f, " ", "") == "rule.leftRecursive" {
+					okFact = true
+				}
+			}
+			if !okFact {
+				bad = append(bad, v.Where(ev.Pos)+": parseRuleMemoize is reachable for a left-recursive rule (no !rule.leftRecursive on the path): under Memoize(true) the rule's first failing result would be replayed on every growth step")
+			}
+		}
+	}
+	sort.Strings(bad)
+	if len(bad) > 0 {
+		r.Bad("C06-d", "T.parseRuleWrap:memo-not-for-left-recursive-rules", v.Name, v.Where(res.Fn.Pos()), bad[0])
+	} else {
+		r.Ok("C06-d", "T.parseRuleWrap:memo-not-for-left-recursive-rules", v.Name, v.Where(res.Fn.Pos()), "rule memo only under !rule.leftRecursive")
 	}
 }
